@@ -377,7 +377,7 @@ def strategy():
         lambda form, at, ia, ir: {"form": form, "action_type": at, "include_args": ia, "include_result": ir},
         st.sampled_from(["bare", "call", "call", "direct"]),
         st.one_of(st.none(), st.sampled_from(["app:f", "", "x.y"])),
-        st.one_of(st.none(), st.none(), st.lists(st.one_of(st.integers(0, 6), st.integers(0, 6), st.sampled_from(["zz", "nope"])), max_size=3)),
+        st.one_of(st.none(), st.none(), st.lists(st.one_of(st.integers(0, 6), st.integers(0, 6), st.sampled_from(["zz", "nope", "self"])), max_size=3)),
         st.sampled_from([True, True, False]),
     )
     call = st.builds(
